@@ -51,6 +51,9 @@ CLASSES = [
     "PositiveDefiniteLowRankUpdateMatrix", "IdentityMatrix", "DenseRectangularMatrix", "DenseSquareMatrix",
     "InverseLUFactoredSquareMatrix", "DenseSymmetricMatrix",
 ]
+# members that are outside the operator algebra by nature (LAPACK Schur square root); anything else
+# that cannot be evaluated is an unrecognised idiom and fails the run (exit 2) instead of being skipped
+ALLOWED_OUTSIDE = {"PositiveDefiniteLowRankUpdateMatrix._construct_sqrt"}
 LU_CLASSES = {"DenseSquareMatrix": ("self._array", "self._lu_transposed", "array", "lu_transposed"), "InverseLUFactoredSquareMatrix": ("self._inv_array", "self._inv_lu_transposed", "inv_array", "inv_lu_transposed")}
 LOWRANK = ("SquareLowRankUpdateMatrix", "SymmetricLowRankUpdateMatrix", "PositiveDefiniteLowRankUpdateMatrix")
 SYMMETRIC_ARRAY = ("DenseDefiniteMatrix", "DensePositiveDefiniteMatrix", "DenseSymmetricMatrix")
@@ -164,6 +167,11 @@ def symbolic_instance(program: Program, k, alg: Alg):
                     both = st.orelse and any(isinstance(x, ast.Assign) and is_self_attr(x.targets[0]) for x in st.orelse)
                     if both:
                         do(st.orelse)
+                    continue
+                if isinstance(st, ast.Assign) and len(st.targets) == 1 and isinstance(st.targets[0], ast.Name) and isinstance(st.value, (ast.Name, ast.IfExp)) and all(isinstance(x, ast.Name) and x.id in program.classes for x in ([st.value] if isinstance(st.value, ast.Name) else [st.value.body, st.value.orelse])):
+                    # a local bound to a class (or to a choice of classes made while normalising the
+                    # arguments: like the If rule above, the generic instance takes the general arm)
+                    env[st.targets[0].id] = ("lazy", st.value if isinstance(st.value, ast.Name) else st.value.orelse)
                     continue
                 if isinstance(st, ast.Assign) and len(st.targets) == 1:
                     t = st.targets[0]
@@ -327,6 +335,10 @@ def rule_algebra(rep, program: Program):
                             _check_caches(r5, alg, ev, f, v, cname, "scalar_multiply")
                     except AnalysisError as e:
                         skipped.append(f"{cname}.{member}: {str(e)[:70]}")
+    unexpected = [x for x in skipped if x.split(":")[0] not in ALLOWED_OUTSIDE]
+    if unexpected:
+        rep.extra["members_outside_algebra"] = skipped
+        raise AnalysisError("matrix members could not be evaluated in the operator algebra (idiom not recognised): " + "; ".join(unexpected[:4]))
     rep.extra["members_outside_algebra"] = skipped
     r1.notes.append(f"{len(skipped)} (class, member) pairs lie outside the operator algebra (comprehension/LAPACK based); listed in the evidence")
     return r1, r4, r5
@@ -519,7 +531,9 @@ def rule_blocks(rep, program: Program, tier: str):
     r.findings = uniq
     rep.extra["block_members_outside_algebra"] = skipped
     if skipped:
-        r.notes.append(f"{len(skipped)} block/product member evaluations lie outside the grammar (listed in the evidence)")
+        # on the pinned tree every block / product member evaluates; a member that stops doing so is an
+        # unrecognised idiom, not something to skip silently
+        raise AnalysisError("block / product members could not be evaluated (idiom not recognised): " + "; ".join(skipped[:3]))
     return r
 
 
